@@ -89,6 +89,15 @@ let stateless (t : string array) : string option =
       Some (match hex_from_str (text_arg t.(1)) with
             | Some h -> "ok " ^ hex_out h
             | None -> "err")
+  | "HEXSET" ->
+      Some (hex_out (unwrap (hex_set (hex_in t.(1)) (usize_of_string t.(2)) (n_of_int (int_of_string ("0x" ^ t.(3)))))))
+  | "HEXSTRBYTES" -> Some (hex_out (hex_from_str_bytes (text_arg t.(1))))
+  | "HEXTOBOOL" -> Some (if unwrap (hex_to_bool (hex_in t.(1))) then "1" else "0")
+  | "HEXTOUTF8" ->
+      Some (match hex_to_utf8 (hex_in t.(1)) with Some txt -> "ok " ^ text_out txt | None -> "err")
+  | "HEXFROMINT" -> Some (hex_out (hex_from_int (nat_of_int (int_of_string t.(1))) (z_of_dec t.(2))))
+  | "HEXFROMF32" -> Some (hex_out (hex_from_f32_bits (n_of_hex t.(1))))
+  | "HEXFROMBOOL" -> Some (hex_out (hex_from_bool (t.(1) = "1")))
   | "HEXFROMVEC" -> Some (hex_out (from_vec (bytes_of_hex t.(1))))
   | "HEXFROMSLICE" -> Some (hex_out (from_slice (bytes_of_hex t.(1))))
   | "LABELPARSE" ->
